@@ -3,9 +3,9 @@
 # in seeded/<id>/result.txt (used to write meta.json). /repo is restored after every change.
 HERE="$(cd "$(dirname "$0")" && pwd)"; . "$HERE/env.sh"
 for d in /verif/seeded/C*/; do
-  id=$(basename "$d")
-  [ -n "$1" ] && [ "$1" != "$id" ] && continue
+  name=$(basename "$d"); id=${name%%_*}
+  [ -n "$1" ] && [ "$1" != "$name" ] && continue
   out=$(bash "$HERE/try_seed.sh" "$d/patch.diff" "$id" quick 2>&1)
   echo "$out" > "$d/result.txt"
-  echo "$id: $(echo "$out" | grep -m1 '^exit=') violations=$(echo "$out" | sed -n 2p)"
+  echo "$name: $(echo "$out" | grep -m1 '^exit=') violations=$(echo "$out" | sed -n 2p)"
 done
